@@ -263,7 +263,7 @@ OBLIGATIONS = [
         twin=[{"N": 4, "D": 3, "twin_label": "failed-nested"}],
         timeout={"quick": 100, "thorough": 900},
         bounds={
-            "quick": "all op sequences (open/close/message/raise-caught-j-levels-out) of <= 4 ops, depth <= 3, under 20 style profiles (baseline + every single-dimension variation of open style(6)/message style(5)/exception class(8)/extra finish(3)); hand-offs with separate files, both merge orders, bytes/text ids; re-entry of the current action's context()/run(); deferred hand-offs (id made inside an action, work logged after it ended); actions with the default empty action type; unusual field names (non-ASCII, spaces, names eliot uses on other message kinds); a Logger passed positionally; actions started, used and finished without ever being entered; continue_task with a custom action type; every <= 2-op program with per-step free styles",
+            "quick": "all op sequences (open/close/message/raise-caught-j-levels-out) of <= 4 ops, depth <= 3, under 21 style profiles (baseline + every single-dimension variation of open style(6)/message style(5)/exception class(9)/extra finish(3)); hand-offs with separate files, both merge orders, bytes/text ids; re-entry of the current action's context()/run(); deferred hand-offs (id made inside an action, work logged after it ended); actions with the default empty action type; unusual field names (non-ASCII, spaces, names eliot uses on other message kinds); a Logger passed positionally; actions started, used and finished without ever being entered; continue_task with a custom action type; every <= 2-op program with per-step free styles",
             "thorough": "<= 6 ops, depth <= 4 under the same 20 profiles; hand-offs <= 5 ops; free styles <= 3 ops",
         },
     ),
